@@ -2,7 +2,7 @@
    Only statements, each closed by `exact`, with Print Assumptions beneath. *)
 From Coq Require Import ZArith List Permutation.
 From Bluge Require Import Base.Res Search.Numeric Search.Postings Search.Searchers Search.Semantics
-  Search.Layout Search.LayoutProofs.
+  Search.Layout Search.LayoutProofs Search.SearchersProofsSnap Search.SearchersProofsExact.
 Import ListNotations.
 Open Scope Z_scope.
 
@@ -74,3 +74,16 @@ Theorem score_mode_none_same_set_refuted :
   exists sn q, answer sn copts_default q = Ok [1] /\ answer sn copts_score_none q = Ok [1; 2] /\ sem_ids q sn = [1].
 Proof. exists none_sn, none_q. exact score_mode_none_counterexample. Qed.
 Print Assumptions score_mode_none_same_set_refuted.
+
+(* layout_independent_matches at the level of the searcher state machines (full statement: for
+   every query; proved for the fragment C07's search_exact_partial covers: boolean queries over
+   term clauses, options copts_plain) *)
+Theorem layout_independent_matches_partial : forall sn1 sn2 musts shoulds nots ms,
+  wf_sn sn1 -> wf_sn sn2 -> 0 <= ms -> (musts <> [] \/ shoulds <> []) ->
+  (length shoulds <= 10)%nat -> (length nots <= 10)%nat ->
+  Permutation (logical sn1) (logical sn2) ->
+  exists ids1 ids2,
+    answer sn1 copts_plain (flatq musts shoulds nots ms) = Ok ids1 /\
+    answer sn2 copts_plain (flatq musts shoulds nots ms) = Ok ids2 /\ Permutation ids1 ids2.
+Proof. exact layout_independent_matches_flat. Qed.
+Print Assumptions layout_independent_matches_partial.
